@@ -1,14 +1,19 @@
 #!/usr/bin/env python3
 """Development tool: run ./selftest on every seeded change and (re)write seeded/<id>/meta.json + seeded/RESULTS.md."""
-import json, os, re, subprocess
+import json, os, re, subprocess, sys
 ROOT = os.path.dirname(os.path.abspath(__file__))
 S = os.path.join(ROOT, "seeded")
 rows = []
+ONLY = set(sys.argv[1:])
 for d in sorted(os.listdir(S)):
     p = os.path.join(S, d, "patch.diff")
     if not os.path.exists(p): continue
-    o = subprocess.run([os.path.join(ROOT, "selftest"), p], capture_output=True, text=True).stdout
-    open(os.path.join(S, d, "selftest.txt"), "w").write(o)
+    st = os.path.join(S, d, "selftest.txt")
+    if ONLY and d not in ONLY and os.path.exists(st):
+        o = open(st).read()                      # ./selftest_all.py <id> ...: re-run only those, keep the other rows
+    else:
+        o = subprocess.run([os.path.join(ROOT, "selftest"), p], capture_output=True, text=True).stdout
+        open(st, "w").write(o)
     m = re.search(r"ALARMS:(.*)", o); alarms = m.group(1).split() if m else []
     suite = "59 passed; 0 failed" in o
     agent = {}
